@@ -10,6 +10,7 @@ import (
 	"bytes"
 	"context"
 	"fmt"
+	"io"
 	"math/rand"
 	"os"
 
@@ -20,14 +21,104 @@ import (
 )
 
 type observation struct {
-	Procs  []int         `json:"procs"`
-	Status int           `json:"status"` // 0: Err()==nil, 1: error
-	Err    string        `json:"err,omitempty"`
-	Objs   []pbfwire.Obs `json:"objects"`
+	Procs   []int         `json:"procs"`
+	Readers []string      `json:"readers,omitempty"` // how the input was delivered for the corresponding entry of procs ("" = bytes.Reader)
+	Status  int           `json:"status"`            // 0: Err()==nil, 1: error
+	Err     string        `json:"err,omitempty"`
+	Objs    []pbfwire.Obs `json:"objects"`
+}
+
+// cutReader delivers data in pieces: a Read never crosses the next cut point and returns at most
+// max bytes (0 = no limit).  eofWithData: the last piece is returned together with io.EOF
+// (like iotest.DataErrReader) instead of (n, nil) followed by (0, io.EOF).
+type cutReader struct {
+	data        []byte
+	pos         int
+	cuts        map[int]bool
+	max         int
+	rng         *rand.Rand // random piece lengths 1..max
+	eofWithData bool
+}
+
+func (r *cutReader) Read(p []byte) (int, error) {
+	if r.pos >= len(r.data) {
+		return 0, io.EOF
+	}
+	n := len(p)
+	if r.max > 0 {
+		m := r.max
+		if r.rng != nil {
+			m = 1 + r.rng.Intn(r.max)
+		}
+		if n > m {
+			n = m
+		}
+	}
+	if n > len(r.data)-r.pos {
+		n = len(r.data) - r.pos
+	}
+	for k := 1; k < n; k++ {
+		if r.cuts[r.pos+k] {
+			n = k
+			break
+		}
+	}
+	copy(p, r.data[r.pos:r.pos+n])
+	r.pos += n
+	if r.eofWithData && r.pos == len(r.data) {
+		return n, io.EOF
+	}
+	return n, nil
+}
+
+type readerSpec struct {
+	name string
+	mk   func(data []byte, frames []pbfgen.Frame) io.Reader
+}
+
+// cut points 1, 2 and 3 bytes into every size prefix and in the middle of every header and blob
+func frameCuts(frames []pbfgen.Frame) map[int]bool {
+	c := map[int]bool{}
+	for _, f := range frames {
+		if f.Kind == "size" {
+			c[f.Off+1], c[f.Off+2], c[f.Off+3] = true, true, true
+		} else if f.Len > 1 {
+			c[f.Off+f.Len/2] = true
+		}
+		c[f.Off] = true
+	}
+	return c
+}
+
+func readerSpecs(seed int64) []readerSpec {
+	chunk := func(k int, eof bool) readerSpec {
+		n := fmt.Sprintf("chunks-of-%d", k)
+		if eof {
+			n += "+eof-with-data"
+		}
+		return readerSpec{n, func(d []byte, _ []pbfgen.Frame) io.Reader { return &cutReader{data: d, max: k, eofWithData: eof} }}
+	}
+	specs := []readerSpec{chunk(1, false), chunk(2, false), chunk(3, true), chunk(5, false), chunk(7, true),
+		{"random-chunks", func(d []byte, _ []pbfgen.Frame) io.Reader {
+			return &cutReader{data: d, max: 9, rng: rand.New(rand.NewSource(seed))}
+		}},
+		{"cuts-inside-every-size-prefix-header-blob", func(d []byte, fr []pbfgen.Frame) io.Reader {
+			return &cutReader{data: d, cuts: frameCuts(fr)}
+		}},
+		{"cuts-inside-frames+eof-with-data", func(d []byte, fr []pbfgen.Frame) io.Reader {
+			return &cutReader{data: d, cuts: frameCuts(fr), eofWithData: true}
+		}},
+		{"whole-input+eof-with-data", func(d []byte, _ []pbfgen.Frame) io.Reader { return &cutReader{data: d, eofWithData: true} }},
+	}
+	return specs
 }
 
 func scan(data []byte, procs int) (objs []pbfwire.Obs, status int, errs string) {
-	sc := osmpbf.New(context.Background(), bytes.NewReader(data), procs)
+	return scanFrom(bytes.NewReader(data), procs)
+}
+
+func scanFrom(r io.Reader, procs int) (objs []pbfwire.Obs, status int, errs string) {
+	sc := osmpbf.New(context.Background(), r, procs)
 	defer sc.Close()
 	for sc.Scan() {
 		objs = append(objs, pbfwire.Snapshot(sc.Object()))
@@ -47,6 +138,9 @@ type fileCase struct {
 }
 
 // mutate, when non-nil, corrupts the observations (canaries).
+// readers used for the next buildCase calls (nil = bytes.Reader only)
+var extraReaders []readerSpec
+
 func buildCase(d *pbfgen.FileDesc, procsList []int, class string, mutate func(fc *fileCase, hdr **osmpbf.Header)) (*wire.Case, error) {
 	data, frames := pbfgen.Encode(d)
 	payloads, err := pbfwire.Payloads(data, frames)
@@ -62,21 +156,27 @@ func buildCase(d *pbfgen.FileDesc, procsList []int, class string, mutate func(fc
 		hdr, herr = sc.Header()
 		sc.Close()
 	}
-	// scans
-	for _, p := range procsList {
-		objs, st, es := scan(data, p)
-		merged := false
+	// scans: the whole input from a bytes.Reader for every decoder count, then the same bytes through
+	// readers that deliver them in pieces (the result must not depend on how the reader delivers them)
+	record := func(p int, reader string, objs []pbfwire.Obs, st int, es string) {
 		for i := range fc.Obs {
 			o := &fc.Obs[i]
 			if o.Status == st && pbfwire.EqualObs(o.Objs, objs) {
 				o.Procs = append(o.Procs, p)
-				merged = true
-				break
+				o.Readers = append(o.Readers, reader)
+				return
 			}
 		}
-		if !merged {
-			fc.Obs = append(fc.Obs, observation{Procs: []int{p}, Status: st, Err: es, Objs: objs})
-		}
+		fc.Obs = append(fc.Obs, observation{Procs: []int{p}, Readers: []string{reader}, Status: st, Err: es, Objs: objs})
+	}
+	for _, p := range procsList {
+		objs, st, es := scan(data, p)
+		record(p, "", objs, st, es)
+	}
+	for k, rs := range extraReaders {
+		p := procsList[k%len(procsList)]
+		objs, st, es := scanFrom(rs.mk(data, frames), p)
+		record(p, rs.name, objs, st, es)
 	}
 	if mutate != nil {
 		mutate(fc, &hdr)
@@ -419,7 +519,7 @@ var procsAll = []int{1, 2, 3, 7, 16}
 func main() {
 	a := wire.ParseArgs()
 	w := wire.NewWriter("C01", a.Seed, a.Tier)
-	w.Rule = "one case per generated PBF file (pbfgen.RandomFile: 1-5 blocks, 0-3 groups, dense/way/relation/mixed groups, every subset of optional columns and Info fields varying block to block, granularity/offsets/date granularity, raw+zlib, permuted layouts, unknown fields, header field subsets) scanned with 3-5 decoder counts from {1,2,3,7,16}; non-trivial = the file encodes at least one element; distinct = distinct token streams"
+	w.Rule = "one case per generated PBF file (pbfgen.RandomFile: 1-5 blocks, 0-3 groups, dense/way/relation/mixed groups, every subset of optional columns and Info fields varying block to block, granularity/offsets/date granularity, raw+zlib, permuted layouts, unknown fields, header field subsets) scanned with 3-5 decoder counts from {1,2,3,7,16} from a bytes.Reader and again through readers that deliver the same bytes in pieces (chunks of 1/2/3/5/7/random bytes, cut points 1-3 bytes into every size prefix and inside every blob header and blob, EOF returned with or after the last data); non-trivial = the file encodes at least one element; distinct = distinct token streams"
 	rng := wire.Rng(a.Seed)
 	nfiles := int(90 * a.Scale)
 	nprocs := 3
@@ -446,7 +546,9 @@ func main() {
 		if err := pbfgen.Validate(d); err != nil {
 			fail(fmt.Errorf("corpus %d invalid: %v", i, err))
 		}
+		extraReaders = readerSpecs(a.Seed)
 		c, err := buildCase(d, procsAll, "corpus", nil)
+		extraReaders = nil
 		if err != nil {
 			fail(err)
 		}
@@ -469,7 +571,21 @@ func main() {
 			fail(fmt.Errorf("generator produced an invalid description: %v", err))
 		}
 		descs = append(descs, d)
+		all := readerSpecs(a.Seed + int64(i))
+		if a.Tier == "thorough" {
+			extraReaders = all
+		} else { // quick: the frame-cut reader always, plus two others in rotation
+			extraReaders = []readerSpec{all[6], all[(2*i)%len(all)], all[(2*i+1)%len(all)]}
+		}
 		c, err := buildCase(d, pick(i), "random", nil)
+		extraReaders = nil
+		for _, o := range fc0(c) {
+			for _, r := range o.Readers {
+				if r != "" {
+					w.Count("reader:" + r)
+				}
+			}
+		}
 		if err != nil {
 			fail(err)
 		}
@@ -589,6 +705,16 @@ func bigCase(rng *rand.Rand, opts pbfgen.Opts, procs []int, label string) *wire.
 	c.Trivial = false
 	c.Toks = append(c.Toks, []uint64{}...)
 	return c
+}
+
+func fc0(c *wire.Case) []observation {
+	if c == nil {
+		return nil
+	}
+	if fc, ok := c.Desc.(*fileCase); ok {
+		return fc.Obs
+	}
+	return nil
 }
 
 func stats(w *wire.Writer, d *pbfgen.FileDesc) {
